@@ -1,4 +1,4 @@
-import BV.Lemmas.StreamAbsorb
+import BV.Lemmas.StreamExit
 /-
 C20 — Streaming state machine honours its call contract.
 
@@ -199,6 +199,54 @@ theorem violations_fail_clean {o : Oracle} {fuel op cap : Nat} {input : Bytes} {
   subst hr
   obtain ⟨hs, hio⟩ := refused_unchanged hop hI hw h
   exact ⟨rfl, hio, hs⟩
+
+/-! ### completion -/
+
+/-- **request_completes** (1): PROCESS / FLUSH / FINISH outside a metadata block.  An accepted
+call that returns with output room left has nothing pending, and a call that returns with
+nothing pending has COMPLETED the request (`Drained`): all offered input is consumed; a FLUSH
+from `processing` has been performed (stream state back to PROCESSING, no carry bits, nothing
+unflushed); a FINISH from `processing` has reached FINISHED; in the states `flushing` /
+`finishing` the call only drains (so a FINISH issued while a flush is still draining needs one
+more call).  Hence a caller that repeats the request with `cap ≥ 1` sees, at every call, either
+completion or a completely filled output buffer: the number of calls is at most
+`⌈bytes delivered / cap⌉ + 2`.  No hypothesis on the oracle. -/
+theorem request_completes {o : Oracle} {fuel op cap : Nat} {input : Bytes} {s s' : St} {io' : Io}
+    (hop : op ≤ 2) (hI : Inv s) (hrm : s.remainingMetadata = u32Max) (hw : s.inputPos + input.length < two64)
+    (h : compressStream o fuel s op input cap = .ok (s', io', true)) :
+    (io'.availOut ≠ 0 → s'.pending.length = 0) ∧ (s'.pending.length = 0 → Drained op s.streamState s' io') :=
+  compressStream_drained hop hI hrm hw h
+
+/-- **request_completes** (2): EMIT_METADATA.  An accepted call that returns with output room
+left, or with nothing pending, has completed the block: every payload byte consumed, stream
+state back to PROCESSING. -/
+theorem metadata_completes {o : Oracle} {fuel cap : Nat} {input : Bytes} {s s' : St} {io' : Io}
+    (hI : Inv s) (hw : s.inputPos + input.length < two64)
+    (h : compressStream o fuel s 3 input cap = .ok (s', io', true)) :
+    (io'.availOut ≠ 0 → s'.pending.length = 0) ∧
+    (s'.pending.length = 0 → s'.remainingMetadata = u32Max ∧ s'.streamState = .processing ∧ io'.availIn = 0) :=
+  metadata_drained hI hw h
+
+/-- `take_output` alone completes a pending flush / finish: once it has handed out the last
+pending byte the stream state is PROCESSING (after a flush) or stays FINISHED -/
+theorem take_output_completes {s s' : St} {size : Nat} {out : Bytes} (hI : Inv s)
+    (h : takeOutput s size = .ok (s', out)) (hp : s'.pending = []) (hfl : s.streamState = .flushRequested)
+    (hout : out ≠ []) : s'.streamState = .processing := by
+  unfold takeOutput at h
+  split at h
+  · simp at h
+  · split at h
+    · simp only [Out.ok.injEq, Prod.mk.injEq] at h
+      obtain ⟨rfl, rfl⟩ := h
+      rw [checkFlushComplete_state]
+      have hp' : (takeAdvance s (takeCount s size)).pending = [] := by
+        have := (checkFlushComplete_frame (takeAdvance s (takeCount s size))).2.2.2.2.2.2.2.1
+        rw [this] at hp; exact hp
+      have hst : (takeAdvance s (takeCount s size)).streamState = .flushRequested := hfl
+      simp [hst, hp']
+    · simp only [Out.ok.injEq, Prod.mk.injEq] at h
+      obtain ⟨_, rfl⟩ := h
+      exact absurd rfl hout
 
 /-! ### non-vacuity -/
 
